@@ -81,7 +81,7 @@ def sx(n, keep_casts=False):
     if k in ("UnresolvedLookupExpr",):
         return ("ref", n.get("name", "?"))
     if k == "UnresolvedMemberExpr":
-        return ("mem", ("this",), "?")
+        return ("mem", sx(ks[0], keep_casts) if ks else ("this",), n.get("member", "?"))
     if k in ("CallExpr", "CXXMemberCallExpr"):
         callee = sx(ks[0], keep_casts)
         return ("call", callee) + tuple(sx(a, keep_casts) for a in ks[1:])
